@@ -17,6 +17,7 @@ type vC10LST struct {
 	imp        int // 0 none, else 1+name(0..2)
 	version    int
 	maxID      int // -1 absent
+	extraAnn   bool // a leading annotation in front of $ion_symbol_table: then the struct is ordinary data
 }
 
 var vC10Names = []string{"t1", "t2", "t3", "zz"}
@@ -57,6 +58,9 @@ func (l vC10LST) binary() []byte {
 	case 2:
 		body = vCat(body, []byte{0x87}, vTLV(0xB0, 0x0F))
 	}
+	if l.extraAnn {
+		return vTLV(0xE0, vCat([]byte{0x82, 0x84, 0x83}, vTLV(0xD0, body...))...)
+	}
 	return vTLV(0xE0, vCat([]byte{0x81, 0x83}, vTLV(0xD0, body...))...)
 }
 
@@ -69,6 +73,9 @@ func vItoa(n int) string {
 
 func (l vC10LST) text() string {
 	s := "$ion_symbol_table::{"
+	if l.extraAnn {
+		s = "name::$ion_symbol_table::{"
+	}
 	if l.appendMode {
 		s += "imports:$ion_symbol_table,"
 	} else if l.imp > 0 {
@@ -97,6 +104,9 @@ func H_C10_stream() {
 	l := vC10Pick()
 	if l.appendMode {
 		vassume(l.imp == 0)
+	}
+	if vparam("extra", 0) == 1 {
+		l.extraAnn = true
 	}
 	midBVM := vnondetBool()
 	// one of the three symbol IDs is symbolic (param which), the other two are fixed, so that the case splits on
@@ -159,8 +169,14 @@ func H_C10_stream() {
 		return
 	}
 	vassert(r.Err() == nil && !stepErr, "a well-formed stream is read without error")
-	vassert(len(evs) == len(us), "symbol-table structs never surface as values")
+	vassert(len(evs) == len(us), "symbol-table structs never surface as values; annotated ordinary structs do")
 	for i := range us {
+		if us[i].typ != SymbolType || us[i].depth != 0 {
+			// (only with extra=1) the struct that merely carries $ion_symbol_table as a later annotation, and its children
+			vassert(evs[i].typ == us[i].typ && evs[i].depth == us[i].depth && evs[i].null == us[i].null, "a struct whose first annotation is not $ion_symbol_table is ordinary data")
+			vcover("data")
+			continue
+		}
 		vassert(evs[i].typ == SymbolType && !evs[i].null && !evs[i].accErr, "each user value is a symbol")
 		if us[i].sym.known {
 			vassert(evs[i].sym.hasText && evs[i].sym.text == us[i].sym.text, "the symbol resolves against the table in force at that point")
